@@ -3,7 +3,10 @@
 Lean: SSVerif/Props/C16.lean (invariant of every reachable dictionary; add_then_lookup, others_unchanged,
 reject_is_noop, grow_transparent, alt_chain, d2p_covers over SSVerif/Model/Dict.lean = dict_add_word /
 dict_word2basestr / decoder_add_word's parser / dict2pid_add_word's fill pattern, with repairs D03-D05).
-Tie: generated constants (S3DICT_INC_SZ, special words, isspace_c set) + op files replayed on the real
+Table contents: SSVerif/Model/Dict2pid.lean = bin_mdef_phone_id (tree walk over the dumped cd_tree) / phone_id_nearest back-off /
+compress_table / dict2pid_build / populate_lrdiph / dict2pid_add_word; C16_d2p_tables_exact: every entry read through the dict2pid
+accessors = pid2ssid(phone_id_nearest(...)) after any history; every written row of the real tables is diffed against the model.
+Tie: generated constants (S3DICT_INC_SZ, special words, isspace_c set, populate_lrdiph's silence-row stores) + op files replayed on the real
 dict.c / dict2pid.c / decoder.c (ASan/UBSan, asserts on) and on the model's own definitions (ssdriver c16),
 outputs diffed.  Oracle: the property evaluated in Python on what the C code returned (ids, phone strings,
 dumps with alt chains, hypotheses), also on the full en-us dictionary where the list-based model is not run.
@@ -422,8 +425,14 @@ def gen_init(g, mode, nocase, spoken, nlines=None, allow_fail=True):
     n = r.range(0, 25) if nlines is None else nlines
     words = [w for w, _ in lines]
     for _ in range(n):
-        k = r.weighted([("word", 50), ("alt", 20), ("dup", 5), ("nobase", 4), ("badphone", 4), ("nopron", 3), ("lcphone", 4)])
+        k = r.weighted([("word", 50), ("alt", 20), ("dup", 5), ("nobase", 4), ("badphone", 4), ("nopron", 3), ("lcphone", 4),
+                        ("one-phone", 6), ("sil-ctx", 6)])
         p = b" ".join(g.pron())
+        if k == "one-phone":
+            p = r.choice(g.real[:6])
+        elif k == "sil-ctx":
+            x = r.choice(g.real[:6])
+            p = r.choice([x + b" SIL " + r.choice(g.real), r.choice(g.real) + b" SIL " + x, x + b" SIL " + x])
         if k == "alt" and words:
             w = r.choice(words) + b"(" + str(r.range(2, 4)).encode() + b")"
         elif k == "dup" and words:
@@ -473,14 +482,29 @@ def gen_case(g, phones, sil, mode, nadds):
         ops += ["dump", f"wid {hx(b'x')}"]
         return ops, must
     have_search = False
+    if mode == "dec":
+        ops.append("tabs")
+        for _ in range(r.range(0, 3)):
+            ops.append(f"near {r.below(len(phones))} {r.below(len(phones))} {r.below(len(phones))} {r.below(4)}")
+        if r.chance(0.3):
+            ops.append(f"nearrow {r.below(len(phones))} {r.below(4)}")
+            g.hit("ops", "nearrow")
     for step in range(nadds):
         known = [w for w, _, _ in o.words]
         bases = [w for w in known if basestr(w) is None and not w.startswith(b"<") and b"(" not in w and b")" not in w] or \
                 [w for w in known if basestr(w) is None]
         w, kind = g.spelling(known, bases)
         if mode == "dec":
-            pk = r.weighted([("ok", 80), ("unknown", 6), ("lower", 3), ("empty", 3), ("blank", 3), ("one", 5)])
+            pk = r.weighted([("ok", 70), ("unknown", 6), ("lower", 3), ("empty", 3), ("blank", 3), ("one", 7), ("sil-ctx", 8)])
             toks = g.pron(1 if pk == "one" else None)
+            if pk == "sil-ctx":
+                # silence / filler phone as second or second-last phone, first / last phone shared with a one-phone word:
+                # the rows populate_lrdiph also writes (D61)
+                ones = [phones[o.words[i][1][0]] for i in range(len(o.words)) if len(o.words[i][1]) == 1] or [r.choice(g.real)]
+                f = r.choice([b"SIL", b"SIL", b"+NSN+"])
+                shape = r.below(3)
+                toks = [[r.choice(ones), f] + g.pron(r.range(1, 3)), g.pron(r.range(1, 3)) + [f, r.choice(ones)],
+                        [r.choice(ones), f, r.choice(ones)]][shape]
             if pk == "unknown":
                 toks.insert(r.below(len(toks) + 1), r.choice([b"QQ", b"A", b"SILL", b"aa", b"AA1", b"+NSN"]))
             elif pk == "lower":
@@ -503,7 +527,8 @@ def gen_case(g, phones, sil, mode, nadds):
         g.hit("add_result", "accepted" if res >= 0 else f"rejected:{kind}")
         # observations after (almost) every addition
         for _ in range(r.range(0, 3)):
-            ok = r.weighted([("lookup-new", 4), ("lookup-old", 4), ("wid", 3), ("chain", 5), ("dump", 2), ("base", 2), ("lookup-unknown", 1)])
+            ok = r.weighted([("lookup-new", 4), ("lookup-old", 4), ("wid", 3), ("chain", 5), ("dump", 2), ("base", 2), ("lookup-unknown", 1)] +
+                            ([("tabs", 2), ("intern", 2), ("d2p", 1)] if mode == "dec" else []))
             known = [x for x, _, _ in o.words]
             if ok == "lookup-new":
                 ops.append((f"lookup {hx(w)}") if mode == "dec" else f"wid {hx(w)}")
@@ -516,6 +541,10 @@ def gen_case(g, phones, sil, mode, nadds):
                 ops.append(f"chain {hx(r.choice(bases) if r.chance(0.8) else r.choice(known))}")
             elif ok == "dump":
                 ops.append("dump")
+            elif ok in ("tabs", "d2p"):
+                ops.append(ok)
+            elif ok == "intern":
+                ops.append(f"intern {hx(w if r.chance(0.5) else r.choice(known))}")
             elif ok == "base":
                 ops.append(f"base {hx(g.spelling(known, bases)[0])}")
             else:
@@ -526,9 +555,11 @@ def gen_case(g, phones, sil, mode, nadds):
     ops.append("dump")
     if mode == "dec":
         ops.append("d2p")
+        ops.append("tabs")
         gen_spoken_block(g, o, ops, must)
         gen_grammar(g, o, ops, must)
         ops.append("d2p")
+        ops.append("tabs")
         ops.append("dump")
     return ops, must
 
@@ -608,9 +639,94 @@ def gen_spoken_block(g, o, ops, must):
 # --------------------------------------------------------------------------
 # running
 
+def d2p_tol():
+    """which silence rows populate_lrdiph of the CURRENT source still overwrites with single-phone-word ids (D61);
+    the harness's direct comparison with bin_mdef_phone_id_nearest tolerates exactly those"""
+    t = (vlib.LEAN / "SSVerif" / "Generated" / "Dict2pidConsts.lean").read_text()
+    return ("L" if "d2pPopulateWritesLdiphSil : Bool := true" in t else "") + \
+           ("R" if "d2pPopulateWritesRdiphSil : Bool := true" in t else "")
+
+
+def nearest_sweep(c, binp, modeldir, nrows, stats):
+    """bin_mdef_phone_id_nearest(b, l, r, pos) for all l, r on `nrows` rows (b, pos) — all rows when nrows is None —
+    real code vs the model's tree walk / back-off over the dumped cd_tree of `modeldir`"""
+    import subprocess
+    dump = c.scratch / f"mdef-{modeldir.name}.dump"
+    rc, out, err = vlib.run_bin(binp, args=["mdefdump", modeldir, dump])
+    if rc != 0 or not out.startswith("mdefdump ok"):
+        c.oblige(f"cd_tree of {modeldir.name} is well formed", False, out + err[-300:])
+        return False
+    rc, out, err = vlib.run_bin(binp, args=["phones", modeldir])
+    phones, sil = [unhx(x) for x in out.split("\n")[0].split()], int(out.split("\n")[1].split()[1])
+    rows = [(b, pos) for b in range(len(phones)) for pos in range(4)]
+    if nrows is not None:
+        keep = {(sil, p) for p in range(4)} | {(0, 3), (1, 1)}
+        while len(keep) < min(nrows, len(rows)):
+            keep.add(c.rng.choice(rows))
+        rows = sorted(keep)
+    ops = [f"nearrow {b} {pos}" for b, pos in rows]
+    text = "\n".join(ops) + "\n"
+    rc, out, err = vlib.run_bin(binp, args=[c.scratch, modeldir, RAW()], stdin_text=text, timeout=900)
+    env = dict(os.environ)
+    env["C16_MDEF"] = str(dump)
+    r = subprocess.run([str(c.drv), "c16"], input=text.encode(), stdout=subprocess.PIPE, stderr=subprocess.PIPE, timeout=900, env=env)
+    mo = r.stdout.decode().rstrip("\n").split("\n")
+    ho = out.rstrip("\n").split("\n")
+    stats["nearest_sweep"] = stats.get("nearest_sweep", {})
+    stats["nearest_sweep"][modeldir.name] = {"rows(b,pos)": len(rows), "lookups": len(rows) * len(phones) ** 2}
+    if rc == 0 and r.returncode == 0 and ho == mo:
+        return True
+    k = next((i for i in range(min(len(ho), len(mo))) if ho[i] != mo[i]), min(len(ho), len(mo)))
+    detail = {"op": ops[k] if k < len(ops) else None}
+    if k < len(ho) and k < len(mo):
+        a, b2 = ho[k].split(), mo[k].split()
+        j = next((i for i in range(min(len(a), len(b2))) if a[i] != b2[i]), None)
+        if j:
+            n = len(phones)
+            detail.update({"l": (j - 1) // n, "r": (j - 1) % n, "implementation_pid": a[j], "model_pid": b2[j]})
+    c.oblige(f"bin_mdef_phone_id_nearest = model on {modeldir.name}", False, detail)
+    c.violation({"kind": "bin_mdef_phone_id_nearest vs model", "model_dir": str(modeldir), **detail,
+                 "note": "the model's back-off order (exact, other positions 0..3, silence contexts, CI phone) no longer matches the code"},
+                False, tag="nearest")
+    return False
+
+
+D61_KEY = "D61-silence-rows-hold-single-phone-word-ids"
+
+
+def d61_report(c, binp, mdef_line):
+    """While populate_lrdiph of the current source still stores single-phone-word ids into ldiph_lc[b][SIL][*] /
+    rdiph_rc[b][SIL][*] the model follows it (regenerated constants) and C16_d2p_tables_exact excludes those rows.
+    That is a genuine defect (D61), not an accepted behaviour: produce the witness with the harness's strict
+    comparison against bin_mdef_phone_id_nearest and report it under its key once the coordinator has listed it."""
+    tol = d2p_tol()
+    if not tol:
+        return
+    f = vlib.ROOT / "corpus" / "C16" / "D61-silence-context-rows.ops"
+    ops = [mdef_line] + [l for l in f.read_text().split("\n") if l.strip()]
+    rc, out, err = vlib.run_bin(binp, args=[c.scratch, MODELDIR(), RAW()], stdin_text="\n".join(ops) + "\n", timeout=300,
+                                env_extra={"C16_D2P_TOL": ""})
+    bad = [(ops[k], l) for k, l in enumerate(out.split("\n")) if l.startswith("d2p bad")]
+    witness = {"kind": "dict2pid table content", "ops": ops[1:], "rows_still_written": tol,
+               "strict_comparison_with_bin_mdef_phone_id_nearest": [l for _, l in bad],
+               "what": "a word whose second (second-last) phone is SIL reads, for its first (last) phone, the senone sequence of the "
+                       "single-phone-word triphone instead of the word-initial (word-final) one; which one it gets depends on the order "
+                       "of the words in the dictionary", "patch": "fixes/D61-single-phone-ids-in-diphone-rows.patch"}
+    c.cov["D61_silence_rows"] = {"rows_still_written_by_populate_lrdiph": tol, "witness_found": bool(bad),
+                                 "first": bad[0][1] if bad else None}
+    listed = [k for k in vlib.known_findings() if k.get("property") == "C16" and k.get("key") == D61_KEY]
+    if listed and bad:
+        c.violation(witness, True, tag="d61", finding_key=D61_KEY)
+    elif bad:
+        c.assumptions.append("OPEN DEFECT D61 (reported to the coordinator, patch in fixes/): populate_lrdiph stores single-phone-word ids "
+                             "into the silence rows; model and theorem follow the regenerated constants and exclude those rows until the "
+                             f"patch is applied or the finding {D61_KEY} is listed")
+
+
 def run_both(c, binp, ops, timeout=900, model=True):
     text = "\n".join(ops) + "\n"
-    rc, out, err = vlib.run_bin(binp, args=[c.scratch, MODELDIR(), RAW()], stdin_text=text, timeout=timeout)
+    rc, out, err = vlib.run_bin(binp, args=[c.scratch, MODELDIR(), RAW()], stdin_text=text, timeout=timeout,
+                                env_extra={"C16_D2P_TOL": d2p_tol()})
     if not model:
         return (rc, out, err), (0, "", "")
     rc2, mout, merr = run_driver(c, text, timeout=timeout)
@@ -758,8 +874,19 @@ def driver(c):
 
 def run_driver(c, text, timeout=900):
     import subprocess
-    r = subprocess.run([str(c.drv), "c16"], input=text.encode(), stdout=subprocess.PIPE, stderr=subprocess.PIPE, timeout=timeout)
+    env = dict(os.environ)
+    env["C16_MDEF"] = str(c.mdef_file)
+    r = subprocess.run([str(c.drv), "c16"], input=text.encode(), stdout=subprocess.PIPE, stderr=subprocess.PIPE, timeout=timeout, env=env)
     return r.returncode, r.stdout.decode(errors="replace"), r.stderr.decode(errors="replace")
+
+
+def dump_mdef(c, binp):
+    """cd_tree / filler flags / ssid table of the acoustic model, for the model's bin_mdef_phone_id"""
+    c.mdef_file = c.scratch / "mdef.dump"
+    rc, out, err = vlib.run_bin(binp, args=["mdefdump", MODELDIR(), c.mdef_file])
+    ok = rc == 0 and out.startswith("mdefdump ok")
+    c.oblige("the model's cd_tree is well formed (leaves name phones of the table, inner nodes point inside the tree)", ok, out + err[-300:])
+    return ok
 
 
 def read_phones(binp):
@@ -807,8 +934,12 @@ def check(c):
                   "harness/h_c16.c + tools/props/c16.py (generator, canonicalisation, diff, Python property oracle)",
                   "C20 (hash_table.c is a finite map) as the justification of the abstract map in the model",
                   "clang ASan/UBSan as observer of memory errors in dict.c / dict2pid.c / decoder_add_word",
-                  "bin_mdef_ciphone_id is the inverse of the phone table (re-checked on every run by the harness `mdef` op), "
-                  "bin_mdef_phone_id_nearest as the reference for boundary-table contents",
+                  "bin_mdef_ciphone_id is the inverse of the phone table (re-checked on every run by the harness `mdef` op)",
+                  "h_c16 mdefdump: the raw cd_tree / filler flags / phone[].ssid handed to the model's bin_mdef_phone_id (its "
+                  "well-formedness — leaves name phones of the table, inner nodes point inside the tree — is checked while dumping); "
+                  "the real bin_mdef_phone_id_nearest is compared with the model on whole (b, pos) rows of both shipped models and "
+                  "stays the independent reference of the harness's `d2p` op",
+                  "tools/gen_consts.py gen_dict2pid_consts (which silence rows populate_lrdiph stores into)",
                   "ckd_realloc preserves the old entries (libc realloc)"]
     c.assumptions += ["word and phone strings are NUL-terminated C strings (no embedded NUL)",
                       "fewer than MAX_S3WID words; allocation failure is fatal (ckd_alloc) and outside the model",
@@ -821,9 +952,15 @@ def check(c):
     INC = int(m.group(1))
     binp = harness(c)
     c.drv = driver(c)
+    if not dump_mdef(c, binp):
+        return
     phones, sil = read_phones(binp)
     mdef_line = f"mdef {sil} " + " ".join(hx(p) for p in phones)
     stats = {}
+    for md in (MODELDIR(), vlib.REPO / "model" / "fr-fr"):
+        if not nearest_sweep(c, binp, md, 14 if c.tier == "quick" else None, stats):
+            return
+    d61_report(c, binp, mdef_line)
     g = Gen(c.rng, phones, stats)
     ncorp, corpus_failed = 0, False
     for f in sorted((vlib.ROOT / "corpus" / "C16").glob("*.ops")):
@@ -994,6 +1131,7 @@ def gen_growth(g, phones, sil, mode, nadds):
     ops.append("dump")
     if mode == "dec":
         ops.append("d2p")
+        ops.append("tabs")
         gen_spoken_block(g, o, ops, must)
     return ops, must
 
@@ -1002,7 +1140,8 @@ def judge_full(c, binp, ops, phones, sil, mdef_line, label):
     """full shipped dictionary: the implementation is judged by the Python oracle only"""
     full = [mdef_line] + ops
     text = "\n".join(full) + "\n"
-    rc, out, err = vlib.run_bin(binp, args=[c.scratch, MODELDIR(), RAW()], stdin_text=text, timeout=900)
+    rc, out, err = vlib.run_bin(binp, args=[c.scratch, MODELDIR(), RAW()], stdin_text=text, timeout=900,
+                                env_extra={"C16_D2P_TOL": d2p_tol()})
     ho = out.rstrip("\n").split("\n")
     # oracle with the dictionary files parsed here
     def read(path):
@@ -1038,6 +1177,8 @@ def replay(c, path):
     c.lean_obligations()
     binp = harness(c)
     c.drv = driver(c)
+    if not dump_mdef(c, binp):
+        return
     phones, sil = read_phones(binp)
     obj = json.loads(open(path).read())
     mdef_line = f"mdef {sil} " + " ".join(hx(p) for p in phones)
